@@ -5,9 +5,20 @@ import RsMatterVerif.Lemmas.AdminHist
 Model: `Model/Admin.lean` (transliteration of `failsafe.rs` and of the handler glue).
 
 1. **Command gating** (`csr_accept_iff`, `root_accept_iff`, `addnoc_accept_iff`, `updnoc_accept_iff`,
-   `only_failsafe_context`, `csr_once`, `root_once`, `noc_once`): the credential commands are accepted
-   exactly when the specification table (written below from the property text) says so - prescribed
-   order, once each, only from the session context the fail-safe is bound to.
+   `only_failsafe_context`, `addnoc_accepted_in_order`, `csr_once`, `root_once`, `noc_once`): the
+   credential commands are accepted exactly when the accept table says so.  The table has two parts:
+   the SPECIFICATION written from the property text - prescribed order, once each, only from the
+   fail-safe's context (`specCsr`, `specRoot`, `specUpdNoc`, `specAddNocOrder`) - and, for AddNOC, the
+   feasibility conditions of the code (`addNocFeasible`: valid admin subject, NOC issued by the staged
+   root, no fabric conflict, a free index, room in the table, no deferred change pending, the PASE
+   session not promoted yet), which are a refinement fact (they restate the branches of `add_noc`).
+   **"Context" is the fabric association, not the session** - the Matter rule (core spec 11.10.7.2,
+   "Fail-Safe Context") and what `failsafe.rs` `check_state` compares: the fail-safe is bound to "no
+   fabric" while it was armed over PASE and AddNOC has not happened, else to a fabric index; a command
+   is in context when the fabric index of its session equals that.  So ANY un-promoted PASE session
+   is in the context of a PASE-armed fail-safe, and ANY CASE session of the fail-safe's fabric - also
+   one of another node of that fabric - is in the context of a fail-safe armed over CASE (examples
+   below).  "Only from the session that armed it" is NOT claimed and is not what the code does.
 2. **Coherence invariant, store faults included** (`coherent_always_faults`): after EVERY history
    (factory reset excluded) node and store agree on every fabric except the one the fail-safe is
    armed for and the *dirty* ones - a fabric-scoped write outside the fail-safe that was answered with
@@ -15,7 +26,13 @@ Model: `Model/Admin.lean` (transliteration of `failsafe.rs` and of the handler g
 3. **Rollback restores** (`rollback_restores`, `restart_restores`): when the fail-safe ends by expiry
    (timer, ArmFailSafe(0), RevokeCommissioning - all three run `expire`) or by a restart, node and
    store agree on the fail-safe's fabric, on every clean fabric and on the networks, and the
-   rollback itself writes no fabric / network key.
+   rollback itself writes no fabric / network key.  These say "the STORED view is restored";
+   "exactly what they were before arming" is `rollback_restores_state_before_arming` (expiry) and
+   `restart_restores_state_before_arming` (restart), under the hypothesis `StoreQuiet`: no step of the
+   armed period changes the fabric keys or the network key of the store - which excludes every
+   acknowledged write / RemoveFabric of ANY fabric in that period and the partial commit of a failing
+   CommissioningComplete (without it the statement is false: `C08_full_rollback_false`).
+   All history theorems are about histories WITHOUT factory reset (`Op.freset ∉ ops`).
 4. **Commit is joint** (`commit_is_joint`): an acknowledged CommissioningComplete leaves node and
    store equal and the fail-safe disarmed; `failed_complete_stays_armed`: a CommissioningComplete that
    is answered with an error leaves the fail-safe armed (so that it rolls back or can be retried).
@@ -32,7 +49,10 @@ open Admin
 
 /-! ## specification of the credential commands (from the property text) -/
 
-/-- the session context the command arrives in is the one the fail-safe is bound to -/
+/-- the command arrives in the fail-safe's context: the fabric index of its session equals the fabric
+index the fail-safe is bound to (`0` = none: armed over PASE, no AddNOC yet).  This is the Matter rule
+(the Fail-Safe Context is associated with a fabric, not with a session) and the comparison of
+`failsafe.rs` `check_state` / `check_armed`; it does not identify the arming session. -/
 def inContext (n : Node) (mode : Mode) : Bool :=
   match n.fs with
   | none => false
@@ -66,6 +86,31 @@ theorem root_accept_iff (cfg : Cfg) (n : Node) (sid s ca : Nat) (mode : Mode) :
   | some a =>
     by_cases h1 : a.fab = mode.fab <;> by_cases h2 : a.flags.root <;> simp_all [ok, Status.accepted]
 
+theorem inContext_iff (n : Node) (mode : Mode) :
+    inContext n mode = true ↔ ∃ a, n.fs = some a ∧ a.fab = mode.fab := by
+  unfold inContext
+  cases n.fs with
+  | none => simp
+  | some a => simp
+
+/-- what "context" does NOT mean, 1: a second PASE session (1) runs the whole credential sequence
+under the fail-safe that the first PASE session (0) armed -/
+example :
+    let ops : List Op := [.boot, .pase, .pase, .arm 0 60, .csr 1 false, .root 1 1, .addnoc 1 1 5 10 100 1]
+    ((run {} {} ops).fabrics.map (·.idx)) = [1] ∧
+    ((run {} {} ops).sessions.map (fun s => (s.id, s.mode.fab))) = [(0, 0), (1, 1)] := by
+  refine ⟨by decide, by decide⟩
+
+/-- what "context" does NOT mean, 2: the fail-safe is armed over the CASE session 1 of node 100 of
+fabric 1; the CASE session 2 of ANOTHER node (200) of fabric 1 runs CSRRequest / UpdateNOC /
+CommissioningComplete under it -/
+example :
+    let ops : List Op := [.boot, .pase, .arm 0 60, .csr 0 false, .root 0 1, .addnoc 0 1 5 10 100 1,
+      .caseEst 1 100 1, .complete 1, .caseEst 1 200 2, .arm 1 60, .csr 2 true, .updnoc 2 11 2, .complete 2]
+    (run {} {} ops).fs = none ∧ ((run {} {} ops).fabrics.map (fun f => (f.node, f.ser))) = [(11, 2)] := by
+  refine ⟨by decide, by decide⟩
+
+/-- (refinement, not specification: the index allocation of `Fabrics::add_with_post_init`) -/
 def freeIdx (n : Node) : Option Nat :=
   if maxIdx n.fabrics < 254 then some (maxIdx n.fabrics + 1)
   else (List.range 255).find? (fun i => 1 ≤ i && !hasFabric n i)
@@ -76,6 +121,30 @@ def deferredOf (n : Node) : Bool :=
   | none => false
   | some a => a.deferred
 
+/-- **AddNOC, the specification** (from the property text): from the fail-safe's context, after
+CSRRequest (not the UpdateNOC variant) and AddTrustedRootCertificate, and at most one NOC command
+per fail-safe -/
+def specAddNocOrder (n : Node) (mode : Mode) : Bool :=
+  inContext n mode
+  && ((flagsOf n).root && (flagsOf n).addCsr)
+  && !((flagsOf n).addNoc || (flagsOf n).updCsr || (flagsOf n).updNoc)
+
+/-- **AddNOC, the feasibility conditions of the code** (a refinement fact - they restate the remaining
+branches of `FailSafe::add_noc` / `noc.rs` `handle_add_noc`, and say nothing the property demands): the
+admin subject is a node id, the NOC is issued by the staged root, no fabric of that root has the
+fabric id, an index is free and the table has room, the context holds no deferred change of an
+existing fabric (fix de537e5), and a PASE session has not been promoted to a fabric already -/
+def addNocFeasible (cfg : Cfg) (n : Node) (mode : Mode) (ca fid subj : Nat) : Bool :=
+  isNodeId subj && decide (ca = n.staged)
+  && !(n.fabrics.any (fun f => f.fid = fid && f.ca = n.staged))
+  && (freeIdx n).isSome && decide (n.fabrics.length < cfg.maxFabrics)
+  && !(decide (mode.fab ≠ 0) && deferredOf n)
+  && (match mode with
+      | .pase 0 => true
+      | .pase _ => false
+      | .case _ => true)
+
+/-- the accept table of AddNOC: specification and feasibility -/
 def specAddNoc (cfg : Cfg) (n : Node) (mode : Mode) (ca fid subj : Nat) : Bool :=
   inContext n mode
   && ((flagsOf n).root && (flagsOf n).addCsr)
@@ -88,6 +157,11 @@ def specAddNoc (cfg : Cfg) (n : Node) (mode : Mode) (ca fid subj : Nat) : Bool :
       | .pase 0 => true
       | .pase _ => false
       | .case _ => true)
+
+theorem specAddNoc_split (cfg : Cfg) (n : Node) (mode : Mode) (ca fid subj : Nat) :
+    specAddNoc cfg n mode ca fid subj = (specAddNocOrder n mode && addNocFeasible cfg n mode ca fid subj) := by
+  unfold specAddNoc specAddNocOrder addNocFeasible
+  simp only [Bool.and_assoc]
 
 def specUpdNoc (n : Node) (mode : Mode) : Bool :=
   inContext n mode && mode.isCase && (flagsOf n).updCsr
@@ -170,6 +244,15 @@ theorem addnoc_accept_iff (cfg : Cfg) (n : Node) (sid s ca fid node subj ser : N
     simp only [true_and]
     rw [addNoc_accept_iff, specAddNoc_congr cfg n n1 mode ca fid subj h1 h2 h3]
 
+/-- **AddNOC is never accepted outside the specification** (order, once, context) - whatever the
+feasibility conditions say -/
+theorem addnoc_accepted_in_order (cfg : Cfg) (n : Node) (sid s ca fid node subj ser : Nat) (mode : Mode)
+    (hacc : (sessOp cfg n sid mode (.addnoc s ca fid node subj ser)).2.accepted = true) :
+    specAddNocOrder n mode = true := by
+  have := ((addnoc_accept_iff cfg n sid s ca fid node subj ser mode).mp hacc).2
+  rw [specAddNoc_split, Bool.and_eq_true] at this
+  exact this.1
+
 /-! ## gating corollaries -/
 
 /-- a credential command is accepted only from the session context the fail-safe is bound to -/
@@ -236,6 +319,87 @@ theorem root_once (cfg : Cfg) (n : Node) (sid s s' ca ca' : Nat) (mode : Mode)
     | none => simp [hfs] at hspec
     | some a =>
       by_cases h1 : a.fab = mode.fab <;> by_cases h3 : a.flags.root <;> simp_all [ok]
+
+theorem addNoc_sets_flag (cfg : Cfg) (n : Node) (sid ca fid node subj ser : Nat) (mode : Mode)
+    (hacc : (addNoc cfg n sid mode ca fid node subj ser).2.accepted = true) :
+    (flagsOf (addNoc cfg n sid mode ca fid node subj ser).1).addNoc = true := by
+  generalize hres : addNoc cfg n sid mode ca fid node subj ser = r at hacc ⊢
+  simp only [addNoc] at hres
+  repeat' split at hres
+  all_goals (subst hres; first | (simp [Status.accepted] at hacc; done) | simp [flagsOf])
+
+/-- an accepted AddNOC records itself in the fail-safe context -/
+theorem addnoc_sets_flag (cfg : Cfg) (n : Node) (sid s ca fid node subj ser : Nat) (mode : Mode)
+    (hacc : (sessOp cfg n sid mode (.addnoc s ca fid node subj ser)).2.accepted = true) :
+    (flagsOf (sessOp cfg n sid mode (.addnoc s ca fid node subj ser)).1).addNoc = true := by
+  simp only [sessOp] at hacc ⊢
+  rcases hr : retryResum n with ⟨n1, b⟩
+  rw [hr] at hacc
+  cases b with
+  | false => simp [Status.accepted] at hacc
+  | true => exact addNoc_sets_flag cfg n1 sid ca fid node subj ser mode hacc
+
+/-- an accepted UpdateNOC records itself in the fail-safe context -/
+theorem updnoc_sets_flag (cfg : Cfg) (n : Node) (sid s node ser : Nat) (mode : Mode)
+    (hacc : (sessOp cfg n sid mode (.updnoc s node ser)).2.accepted = true) :
+    (flagsOf (sessOp cfg n sid mode (.updnoc s node ser)).1).updNoc = true := by
+  generalize hres : sessOp cfg n sid mode (.updnoc s node ser) = r at hacc ⊢
+  simp only [sessOp] at hres
+  repeat' split at hres
+  all_goals (subst hres; first | (simp [Status.accepted] at hacc; done) | simp [flagsOf, ok, setFabric])
+
+/-- **AddNOC / UpdateNOC at most once per fail-safe**: in a state whose fail-safe context carries the
+AddNOC or the UpdateNOC mark, neither command is accepted - from whatever session -/
+theorem noc_refused_after_noc (cfg : Cfg) (n : Node) (sid : Nat) (mode : Mode)
+    (h : ((flagsOf n).addNoc || (flagsOf n).updNoc) = true) :
+    (∀ s ca fid node subj ser, (sessOp cfg n sid mode (.addnoc s ca fid node subj ser)).2.accepted = false) ∧
+    (∀ s node ser, (sessOp cfg n sid mode (.updnoc s node ser)).2.accepted = false) := by
+  refine ⟨fun s ca fid node subj ser => ?_, fun s node ser => ?_⟩
+  · cases hacc : (sessOp cfg n sid mode (.addnoc s ca fid node subj ser)).2.accepted with
+    | false => rfl
+    | true =>
+      have := ((addnoc_accept_iff cfg n sid s ca fid node subj ser mode).mp hacc).2
+      simp only [specAddNoc, Bool.and_eq_true, Bool.not_eq_true', Bool.or_eq_false_iff] at this
+      have h1 := this.1.1.1.1.1.1.1.2
+      rw [h1.1.1, h1.2] at h
+      exact absurd h (by decide)
+  · cases hacc : (sessOp cfg n sid mode (.updnoc s node ser)).2.accepted with
+    | false => rfl
+    | true =>
+      have := (updnoc_accept_iff cfg n sid s node ser mode).mp hacc
+      simp only [specUpdNoc, Bool.and_eq_true, Bool.not_eq_true', Bool.or_eq_false_iff] at this
+      have h1 := this.1.2
+      rw [h1.1.1.2, h1.2] at h
+      exact absurd h (by decide)
+/-- a NOC command: AddNOC or UpdateNOC -/
+def isNoc (op : Op) : Prop :=
+  (∃ s c f nd a r, op = .addnoc s c f nd a r) ∨ (∃ s nd r, op = .updnoc s nd r)
+
+/-- **AddNOC / UpdateNOC at most once**: right after an accepted NOC command another one is refused -
+whichever of the two, from whichever session.  (State-level: the refusal holds in EVERY state whose
+context carries a NOC mark, `noc_refused_after_noc`; the mark goes away only with the context -
+`complete` / `expire` set `fs := none`, a re-arm keeps the flags - which is read off `sessOp`, not
+proved as a history theorem.) -/
+theorem noc_once (cfg : Cfg) (n : Node) (sid sid' : Nat) (mode mode' : Mode) (op op' : Op)
+    (hop : isNoc op) (hop' : isNoc op')
+    (hacc : (sessOp cfg n sid mode op).2.accepted = true) :
+    (sessOp cfg (sessOp cfg n sid mode op).1 sid' mode' op').2.accepted = false := by
+  have hmark : ((flagsOf (sessOp cfg n sid mode op).1).addNoc || (flagsOf (sessOp cfg n sid mode op).1).updNoc) = true := by
+    rcases hop with ⟨s, c, f, nd, a, r, rfl⟩ | ⟨s, nd, r, rfl⟩
+    · rw [addnoc_sets_flag cfg n sid s c f nd a r mode hacc]; rfl
+    · rw [updnoc_sets_flag cfg n sid s nd r mode hacc]; simp
+  have ⟨h1, h2⟩ := noc_refused_after_noc cfg (sessOp cfg n sid mode op).1 sid' mode' hmark
+  rcases hop' with ⟨s, c, f, nd, a, r, rfl⟩ | ⟨s, nd, r, rfl⟩
+  · exact h1 s c f nd a r
+  · exact h2 s nd r
+
+/-- an accepted AddNOC exists (so `noc_once` is not vacuous): the commissioning over PASE -/
+example :
+    let n := run {} {} [.boot, .pase, .arm 0 60, .csr 0 false, .root 0 1]
+    (sessOp {} n 0 (.pase 0) (.addnoc 0 1 5 10 100 1)).2.accepted = true ∧
+    (sessOp {} (sessOp {} n 0 (.pase 0) (.addnoc 0 1 5 10 100 1)).1 0 (.pase 1) (.addnoc 0 1 6 11 100 2)).2 =
+      .err "ConstraintError" := by
+  refine ⟨by decide, by decide⟩
 
 /-! ## coherence, rollback, commit -/
 
@@ -533,6 +697,31 @@ theorem rollback_restores_state_before_arming (cfg : Cfg) (ops0 ops1 : List Op)
     simp only [kvF, h2, hk1]
   · rw [hag.2, hag0.2]
     simp only [kvNets, h3, hk2]
+
+/-- **The restart leg: exactly what they were before arming.**  The same quiescent clean state `q`,
+then any history `ops1` during which nothing is committed to the fabric / network keys (whatever
+else happens: arming, credential commands, deferred writes, failing writes), then the node restarts
+(`m` = whatever is in memory): it comes up with EXACTLY the fabric records and the networks of `q`,
+no fail-safe, no session. -/
+theorem restart_restores_state_before_arming (cfg : Cfg) (ops0 ops1 : List Op)
+    (hno0 : Op.freset ∉ ops0) (hclean0 : dirtyRun cfg {} [] ops0 = []) (hidle : (run cfg {} ops0).fs = none)
+    (hq : StoreQuiet cfg (run cfg {} ops0) ops1) (m : Node) :
+    (∀ i, i ≠ 0 → getFabric (restartFrom m (run cfg (run cfg {} ops0) ops1).kv (run cfg (run cfg {} ops0) ops1).hist) i =
+                  getFabric (run cfg {} ops0) i) ∧
+    ((restartFrom m (run cfg (run cfg {} ops0) ops1).kv (run cfg (run cfg {} ops0) ops1).hist).nets,
+     (restartFrom m (run cfg (run cfg {} ops0) ops1).kv (run cfg (run cfg {} ops0) ops1).hist).managed) =
+      ((run cfg {} ops0).nets, (run cfg {} ops0).managed) ∧
+    (restartFrom m (run cfg (run cfg {} ops0) ops1).kv (run cfg (run cfg {} ops0) ops1).hist).fs = none ∧
+    (restartFrom m (run cfg (run cfg {} ops0) ops1).kv (run cfg (run cfg {} ops0) ops1).hist).sessions = [] := by
+  have hc0 : Coh (run cfg {} ops0) := coherent_always cfg ops0 hno0 hclean0
+  have hag0 := agree_of_cohD_idle hc0 hidle
+  have ⟨hk1, hk2⟩ := storeQuiet_run cfg ops1 _ hq
+  have ⟨hag, hfs, _, h4, h5, h6⟩ := restartFrom_agree m (run cfg (run cfg {} ops0) ops1).kv (run cfg (run cfg {} ops0) ops1).hist
+  refine ⟨fun i hi => ?_, ?_, hfs, h6⟩
+  · rw [hag.1 i hi, hag0.1 i hi]
+    simp only [kvF, h4, hk1]
+  · rw [hag.2, hag0.2]
+    simp only [kvNets, h5, hk2]
 
 /-- the hypotheses of `rollback_restores_state_before_arming` are satisfiable: a commissioned node
 (`ops0`), then ArmFailSafe over CASE, a deferred ACL write, CSRRequest(update), UpdateNOC, a network
